@@ -55,6 +55,19 @@ func main() {
 			}
 		}
 		os.Exit(rc)
+	case "baseline":
+		// dev: regenerate the list of functions the rule tables were confirmed against
+		os.WriteFile("baseline_funcs.txt", []byte(writeBaseline(repoRoot())), 0o644)
+	case "inline":
+		// dev: print the normalised form of the files the inliner rewrites
+		env := append(os.Environ(), "GOFLAGS=-mod=mod", "GOPROXY=off", "GOSUMDB=off", "GOTOOLCHAIN=local", "GOWORK=off")
+		ov, note := buildInlineOverlay(repoRoot(), env)
+		if note != nil {
+			fmt.Printf("helpers: %v\ninlined: %v\nskipped: %v\nremoved: %v\n", note.Helpers, note.Inlined, note.Skipped, note.Removed)
+		}
+		for f, b := range ov {
+			fmt.Printf("==== %s\n%s\n", f, b)
+		}
 	case "list":
 		ids := []string{}
 		for id := range props {
